@@ -146,6 +146,7 @@ type Pool interface {
 	Copy() Pool
 	AllocsCycle(runs int) float64
 	AllocsCycleByValue(runs int) float64
+	AllocsCyclePair(runs int) float64
 }
 
 type bufW[T signal.SignalTypes] struct {
@@ -487,6 +488,10 @@ func ConvVia(s, d, route int, in, out []uint64) {
 		}
 		src = Alloc(s, a)
 		guarded(ConvName(p, s), func() { Conv(prod, src) })
+	case 4:
+		// source and destination (below) were grown to their size by Append
+		src = Alloc(s, signal.Allocator{Channels: 1, Length: 1, Capacity: 1})
+		src.Append(Alloc(s, signal.Allocator{Channels: 1, Length: n - 1, Capacity: n - 1}))
 	default:
 		src = Alloc(s, a)
 	}
@@ -500,6 +505,10 @@ func ConvVia(s, d, route int, in, out []uint64) {
 		}
 	}
 	dst := Alloc(d, a)
+	if route == 4 {
+		dst = Alloc(d, signal.Allocator{Channels: 1, Length: 1, Capacity: 1})
+		dst.Append(Alloc(d, signal.Allocator{Channels: 1, Length: n - 1, Capacity: n - 1}))
+	}
 	for i := 0; i < n; i++ {
 		dst.SetSample(i, Garbage(d))
 	}
@@ -508,6 +517,9 @@ func ConvVia(s, d, route int, in, out []uint64) {
 		out[i] = dst.Sample(i).B
 	}
 }
+
+// ChannelLength calls signal.ChannelLength.
+func ChannelLength(n, channels int) int { return signal.ChannelLength(n, channels) }
 
 // ConvBlock returns a function that converts up to n raw sample values (Val.B of the
 // source kind) through the real conversion function for (s, d), via real one-channel
